@@ -680,3 +680,7 @@ def run(repo: Repo, rep: Report, tier: str) -> None:
     from .shared import borrow as _borrow01b
     _borrow01b(repo, rep, "C10", "C10-R18", "C01-R18", "a value that is both a place() coordinate and an operand is still computed: `Signal pos = base + 2;` used as a coordinate and in "
                "`pos * s` keeps its combinator", floor=3)
+
+    # ---------------- R19 --------------------------------------------------------------
+    _borrow01b(repo, rep, "C12", "C12-R10", "C01-R19", "an operand is not added to by a foreign value of the same signal type: `x = a * b; y = c * b` with a and c on one signal "
+               "computes a * b and c * b, not (a + c) * b", floor=1)
